@@ -4,7 +4,7 @@ from vdriver import Job, REPO
 LEVEL = "other"
 TECHNIQUE = "CBMC harness proofs of the real Type.c lookup functions against an independent ghost scan, for every (static type, class) pair; concretely bounded loops with unwinding assertions"
 LEVEL_TEXT = 'Complete harness proofs for every (static type, class) pair of the real library objects against an independent ghost scan (cold, warm, reverse order, cache-slot invariant), ClassError on missing classes/members; run-time types built by the real Type_New are checked for instance lists of up to 2 entries over class names that are prefixes of each other (bounded part).'
-NOTE = 'CBMC 6.11; concurrent first lookups not decided; run-time types beyond 2 instances not explored; 256-instance limit not exercised'
+NOTE = 'CBMC 6.11; concurrent first lookups not decided; run-time types beyond 2 instances not explored; cast between a static and a run-time type of the same name raises ValueError; 256-instance limit not exercised'
 EXPLANATION = LEVEL_TEXT
 TRUSTED = ["concurrent first lookups are not decided (schedules)"]
 
